@@ -104,7 +104,7 @@ func Modify(node Node, f func(Node) (Node, bool)) (Node, bool) { //nolint:funlen
 			if !ok {
 				return nil, false
 			}
-			newNode.Parameters[i] = id.(*Identifier)
+			newNode.Parameters[i] = id // whatever the modifier made of the parameter (no assumption: it may not be an identifier anymore).
 		}
 		nb, ok := Modify(node.Body, f)
 		if !ok {
@@ -196,7 +196,7 @@ func Modify(node Node, f func(Node) (Node, bool)) (Node, bool) { //nolint:funlen
 			if !ok {
 				return nil, false
 			}
-			newNode.Parameters[i] = id.(*Identifier)
+			newNode.Parameters[i] = id // whatever the modifier made of the parameter (no assumption: it may not be an identifier anymore).
 		}
 		nb, ok := Modify(node.Body, f)
 		if !ok {
